@@ -340,7 +340,7 @@ func TestC01_Auth(t *testing.T) {
 	if kit.Tier() == "thorough" {
 		maxKeys, maxOps = 120, 60
 	}
-	p := kit.Prop[C01Case]{ID: "C01", Name: "Auth", Quick: 2400, Thorough: 60000, Gen: genC01(maxKeys, maxOps), Run: runC01}
+	p := kit.Prop[C01Case]{ID: "C01", Name: "Auth", Quick: 8000, Thorough: 400000, Gen: genC01(maxKeys, maxOps), Run: runC01}
 	p.Execute(t)
 }
 
